@@ -24,10 +24,18 @@ Definition fits32 (x : Z) : bool := (INT_MIN <=? x) && (x <=? INT_MAX).
 Definition wrap32s (x : Z) : Z := (x + 2147483648) mod W32 - 2147483648.
 
 (* one `int` operation with mathematical result x: value and accumulated "signed overflow
-   happened" flag.  [wide = true] models the same expression evaluated in time_t (64 bit) -- the
-   proposed repair; fix8 as pinned is [wide = false]. *)
+   happened" flag.  [wide = true] is the expression evaluated in time_t (64 bit): fix8 as pinned;
+   [wide = false] is the int evaluation the code had before the repair 4d1009d. *)
 Definition iop (wide : bool) (x : Z) (ub : bool) : Z * bool :=
   if wide then (x, ub) else (wrap32s x, ub || negb (fits32 x)).
+(* (the 64-bit evaluation cannot overflow for operands produced by the parsers: at most four
+   characters per field; the products with Tickval::billion below can, and are wrapped) *)
+
+(* the same for `long` (Tickval::ticks, time_t): 64 bit, wraps on overflow *)
+Definition W64 : Z := 18446744073709551616.
+Definition fits64 (x : Z) : bool := (-9223372036854775808 <=? x) && (x <=? 9223372036854775807).
+Definition wrap64s (x : Z) : Z := (x + 9223372036854775808) mod W64 - 9223372036854775808.
+Definition lop (x : Z) (ub : bool) : Z * bool := (wrap64s x, ub || negb (fits64 x)).
 
 (* ------------------------------------------------------------------ calendar (gmtime_r) *)
 (* days since 1970-01-01 -> (year, month 1..12, day 1..31); floor division throughout *)
@@ -191,10 +199,11 @@ Definition date_time_parse_gen (wide : bool) (s : list Z) : outcome :=
     if len =? 21 then
       do (ms, ub, _) <- parse_decimal 3 (skip1 r) 0 ub;
       do (e, ub) <- time_to_epoch_gen wide tms 0 ub;
-      Some (ms * MILLION + e * BILLION, ub)
+      let '(a, ub) := lop (e * BILLION) ub in        (* time_to_epoch(tms) * Tickval::billion, in long *)
+      Some (lop (ms * MILLION + a) ub)               (* result += ... *)
     else if len =? 17 then
       do (e, ub) <- time_to_epoch_gen wide tms 0 ub;
-      Some (e * BILLION, ub)
+      Some (lop (e * BILLION) ub)
     else Some (0, ub)).
 
 Definition time_parse_gen (wide : bool) (s : list Z) (timeonly : bool) : outcome :=
@@ -209,11 +218,11 @@ Definition time_parse_gen (wide : bool) (s : list Z) (timeonly : bool) : outcome
        then added to a signed 64-bit: equal to the mathematical value for two-character fields *)
     let tod (ub : bool) : option (Z * bool) :=
       if timeonly then Some ((hour * 3600 + min * 60 + sec) * BILLION, ub)
-      else do (e, ub) <- time_to_epoch_gen wide tms 0 ub; Some (e * BILLION, ub) in
+      else do (e, ub) <- time_to_epoch_gen wide tms 0 ub; Some (lop (e * BILLION) ub) in
     if len =? 12 then
       do (ms, ub, _) <- parse_decimal 3 (skip1 r) 0 ub;
       do (v, ub) <- tod ub;
-      Some (ms * MILLION + v, ub)
+      Some (lop (ms * MILLION + v) ub)
     else if len =? 8 then tod ub
     else Some (0, ub)).
 
@@ -228,7 +237,7 @@ Definition date_parse_gen (wide : bool) (s : list Z) : outcome :=
     let tms := {| tm_year := year - 1900; tm_mon := mon - 1; tm_mday := mday;
                   tm_hour := 0; tm_min := 0; tm_sec := 0 |} in
     do (e, ub) <- time_to_epoch_gen wide tms 0 ub;
-    Some (e * BILLION, ub)).
+    Some (lop (e * BILLION) ub)).
 
 (* ------------------------------------------------------------------ the field classes *)
 Inductive kind := K_TS | K_TO | K_DO | K_LD | K_M6 | K_M8.
@@ -250,9 +259,13 @@ Definition field_parse_gen (wide : bool) (k : kind) (s : list Z) : outcome :=
   | _ => date_parse_gen wide s
   end.
 
-(* fix8 as pinned *)
-Definition time_to_epoch := time_to_epoch_gen false.
-Definition field_parse := field_parse_gen false.
+(* fix8 as pinned (since 4d1009d): static_cast<time_t>(tdays) * 86400 + ..., evaluated in time_t.
+   The [_orig] versions are the code before that repair (int arithmetic); they are kept for the
+   witness theorem c09_y2038_orig_refuted only. *)
+Definition time_to_epoch := time_to_epoch_gen true.
+Definition time_to_epoch_orig := time_to_epoch_gen false.
+Definition field_parse := field_parse_gen true.
+Definition field_parse_orig := field_parse_gen false.
 
 Definition all_kinds : list kind := [K_TS; K_TO; K_DO; K_LD; K_M6; K_M8].
 
@@ -260,7 +273,8 @@ Definition all_kinds : list kind := [K_TS; K_TO; K_DO; K_LD; K_M6; K_M8].
    second field from that text *)
 Definition roundtrip_gen (wide : bool) (t : Z) : list (list Z * outcome) :=
   map (fun k => let txt := field_print k t in (txt, field_parse_gen wide k txt)) all_kinds.
-Definition roundtrip := roundtrip_gen false.
+Definition roundtrip := roundtrip_gen true.
+Definition roundtrip_orig := roundtrip_gen false.
 Definition observe (res : list (list Z * outcome)) : list (list Z * option Z) :=
   map (fun p => (fst p, observe_out (snd p))) res.
 
